@@ -155,7 +155,177 @@ pub fn gen_ipv4(r: &mut Rng) -> [u8; 4] {
     }
 }
 
+/// "Almost special" IPv6 addresses: one step away from a class the stack (and LOWPAN_IPHC in
+/// particular) treats specially.  `ext` / `short` are the link-layer addresses the interface
+/// identifiers are derived from (random ones when None).
+///   fe80::/10 outside fe80::/64 (non-zero bits 10..63);  ffFS:: with every flags / scope nibble in
+///   the 8-, 32-, 48- and 128-bit forms;  solicited-node ff02::1:ffXX:XXXX and its neighbours
+///   (ff02::1:feXX…, ff02::2:ff…, scope != 2);  ::ffff:a.b.c.d, ::a.b.c.d, ::1, ::, 64:ff9b::/96;
+///   IID = EUI-64 of the extended address exactly / one bit off / without the universal-local flip;
+///   IID = 0000:00ff:fe00:XXXX of the short address exactly / one bit off, under the link-local,
+///   a global and a site-local prefix.
+pub fn gen_ipv6_special(r: &mut Rng, ext: Option<[u8; 8]>, short: Option<[u8; 2]>) -> [u8; 16] {
+    let mut a = [0u8; 16];
+    let ext = ext.unwrap_or_else(|| {
+        let mut e = [0u8; 8];
+        for x in e.iter_mut() {
+            *x = r.next() as u8
+        }
+        e
+    });
+    let short = short.unwrap_or_else(|| [r.next() as u8, r.next() as u8]);
+    // interface identifier
+    let mut iid = [0u8; 8];
+    match r.below(8) {
+        0 => {
+            iid.copy_from_slice(&ext);
+            iid[0] ^= 0x02; // EUI-64
+        }
+        1 => iid.copy_from_slice(&ext), // universal/local bit NOT flipped
+        2 => {
+            iid.copy_from_slice(&ext);
+            iid[0] ^= 0x02;
+            let bit = r.below(64) as usize;
+            iid[bit / 8] ^= 1 << (bit % 8); // one bit off the EUI-64
+        }
+        3 => iid = [0, 0, 0, 0xff, 0xfe, 0, short[0], short[1]],
+        4 => {
+            iid = [0, 0, 0, 0xff, 0xfe, 0, short[0], short[1]];
+            let bit = r.below(64) as usize;
+            iid[bit / 8] ^= 1 << (bit % 8); // one bit off the short-address form
+        }
+        5 => iid = [0, 0, 0, 0, 0, 0, 0, r.below(3) as u8],
+        6 => iid = [0xff; 8],
+        _ => {
+            for x in iid.iter_mut() {
+                *x = r.next() as u8
+            }
+        }
+    }
+    match r.below(14) {
+        0 => {
+            // link-local scope, non-zero subnet bits: fe80:0:0:1::/64
+            a[0] = 0xfe;
+            a[1] = 0x80;
+            a[7] = 1;
+            a[8..].copy_from_slice(&iid);
+        }
+        1 => {
+            // fe9a:7::/64, febf:ffff:ffff:ffff::/64, fe80 + one bit in octets 1..8
+            match r.below(3) {
+                0 => a[..8].copy_from_slice(&[0xfe, 0x9a, 0, 7, 0, 0, 0, 0]),
+                1 => a[..8].copy_from_slice(&[0xfe, 0xbf, 0xff, 0xff, 0xff, 0xff, 0xff, 0xff]),
+                _ => {
+                    a[0] = 0xfe;
+                    a[1] = 0x80;
+                    let bit = r.range(10, 63) as usize;
+                    a[bit / 8] |= 0x80 >> (bit % 8);
+                }
+            }
+            a[8..].copy_from_slice(&iid);
+        }
+        2 => {
+            // exact fe80::/64 with the special IIDs
+            a[0] = 0xfe;
+            a[1] = 0x80;
+            a[8..].copy_from_slice(&iid);
+        }
+        3 => {
+            // just outside fe80::/10: fec0:: (site-local), fe00::, fe7f:…
+            a[0] = 0xfe;
+            a[1] = *r.pick(&[0xc0u8, 0x00, 0x7f, 0x40]);
+            a[8..].copy_from_slice(&iid);
+        }
+        4 => {
+            // global / ULA prefixes with the special IIDs (context-based compression candidates)
+            let pre: [u8; 8] = *r.pick(&[[0x20u8, 0x01, 0x0d, 0xb8, 0, 0, 0, 1], [0x20, 0x01, 0x0d, 0xb8, 0, 0, 0, 0], [0xfd, 0, 0, 0, 0, 0, 0, 0], [0xfc, 0, 0, 0, 0, 0, 0, 1]]);
+            a[..8].copy_from_slice(&pre);
+            a[8..].copy_from_slice(&iid);
+        }
+        5 => {
+            // ffFS::XX : every flags / scope nibble, 8-bit group id
+            a[0] = 0xff;
+            a[1] = r.next() as u8;
+            a[15] = *r.pick(&[1u8, 2, 0xfb, 0, 0xff]);
+        }
+        6 => {
+            // 32-bit form ffFS::00XX:XXXX and one octet beyond it
+            a[0] = 0xff;
+            a[1] = r.next() as u8;
+            a[13] = r.next() as u8;
+            a[14] = r.next() as u8;
+            a[15] = r.next() as u8;
+            if r.chance(1, 3) {
+                a[12] = 1;
+            }
+        }
+        7 => {
+            // 48-bit form ffFS::00XX:XXXX:XXXX and one octet beyond it
+            a[0] = 0xff;
+            a[1] = r.next() as u8;
+            for x in a[11..].iter_mut() {
+                *x = r.next() as u8
+            }
+            if r.chance(1, 3) {
+                a[*r.pick(&[2usize, 5, 10])] = 1;
+            }
+        }
+        8 => {
+            // solicited-node and its neighbours
+            a[0] = 0xff;
+            a[1] = *r.pick(&[0x02u8, 0x02, 0x02, 0x01, 0x05, 0x12, 0x0e]);
+            a[11] = *r.pick(&[1u8, 1, 1, 2, 0]);
+            a[12] = *r.pick(&[0xffu8, 0xff, 0xff, 0xfe, 0x7f]);
+            a[13] = iid[5];
+            a[14] = iid[6];
+            a[15] = iid[7];
+        }
+        9 => {
+            // IPv4-mapped / IPv4-compatible
+            if r.chance(2, 3) {
+                a[10] = 0xff;
+                a[11] = 0xff;
+            }
+            a[12..].copy_from_slice(&gen_ipv4(r));
+        }
+        10 => {
+            // NAT64 well-known prefix 64:ff9b::/96 (and one bit off)
+            a[..4].copy_from_slice(&[0x00, 0x64, 0xff, 0x9b]);
+            if r.chance(1, 4) {
+                a[7] = 1;
+            }
+            a[12..].copy_from_slice(&gen_ipv4(r));
+        }
+        11 => a[15] = *r.pick(&[1u8, 0, 2]), // ::1, ::, ::2
+        12 => {
+            // all-nodes / all-routers / mDNS / all-DHCP, and the same group under another scope
+            a[0] = 0xff;
+            a[1] = *r.pick(&[0x02u8, 0x02, 0x01, 0x05, 0x0e, 0x03]);
+            match r.below(4) {
+                0 => a[15] = 1,
+                1 => a[15] = 2,
+                2 => a[15] = 0xfb,
+                _ => {
+                    a[13] = 1;
+                    a[15] = 2
+                }
+            }
+        }
+        _ => {
+            // multicast with flags and a full-width group id
+            a[0] = 0xff;
+            a[1] = r.next() as u8;
+            a[2..10].copy_from_slice(&iid);
+            a[15] = r.next() as u8;
+        }
+    }
+    a
+}
+
 pub fn gen_ipv6(r: &mut Rng) -> [u8; 16] {
+    if r.chance(1, 3) {
+        return gen_ipv6_special(r, None, None);
+    }
     let mut a = [0u8; 16];
     match r.below(9) {
         0 => {}
